@@ -197,7 +197,10 @@ def run_case(ctx, i, rng):
             feats = [x for x in FEATURES if rng.random() < 0.7]
             if "undeclared" in feats and common.fenced(me, "eblif-blackbox-not-self-contained") is False:
                 pass
-            design = emodel.gen_design(rng, feats)
+            fence_conn = common.fenced(me, "eblif-conn-on-bus-bit-renumbers-bus")
+            if fence_conn:
+                ctx.count("fenced:conn-only-on-top-bits")
+            design = emodel.gen_design(rng, feats, conn_top_bits_only=fence_conn)
             text = emodel.write(design, rng, style=(i % 5 != 0))
             src = os.path.join(d, "s.eblif")
             with open(src, "w") as fh:
@@ -252,4 +255,24 @@ def run_case(ctx, i, rng):
         shutil.rmtree(d, ignore_errors=True)
 
 
-PROBES = {}
+def probe_conn_bus_bit():
+    """.conn on a middle bus bit: the written file cannot be read back (bus renumbered, instance names collide)."""
+    d = tempfile.mkdtemp(prefix="c18p_")
+    try:
+        f = os.path.join(d, "p.eblif")
+        with open(f, "w") as fh:
+            fh.write(".model top\n.inputs a\n.outputs q[0] q[1] q[2] s\n.names a q[0]\n1 1\n.names a q[1]\n1 1\n.names a q[2]\n1 1\n"
+                     ".names a s\n1 1\n.conn q[1] s\n.end\n")
+        n = sdn.parse(f)
+        g = os.path.join(d, "o.eblif")
+        sdn.compose(n, g)
+        try:
+            sdn.parse(g)
+        except ValueError:
+            return True
+        return False
+    finally:
+        shutil.rmtree(d, ignore_errors=True)
+
+
+PROBES = {"eblif-conn-on-bus-bit-renumbers-bus": probe_conn_bus_bit}
